@@ -539,7 +539,7 @@ def decimal_lax_coercion_loader(data):
         raise ValueLoadError("Bad string format", data)
     except TypeError:
         raise TypeLoadError(Union[str, Decimal], data)
-    except ValueError as e:
+    except (ValueError, OverflowError) as e:  # a (sign, digits, exponent) sequence with an int beyond the C range overflows
         raise ValueLoadError(str(e), data)
 
 
